@@ -192,7 +192,39 @@ def beamEinsums : List String := {_lst(d['beam'])}
 end EasyFEAVerif.Gen.C09
 """
     _write_if_changed(os.path.join(outdir, "Spec.lean"), txt)
+    jf = jacobian_forms(repo)
+    q = lambda t: '"' + t.replace('"', "'").replace("\n", "\\n") + '"'  # noqa: E731
+    _write_if_changed(os.path.join(outdir, "Jacobian.lean"),
+                      "-- GENERATED by tools/py2lean/gen_c09.py from /repo/EasyFEA/FEM/_group_elem.py — do not edit\nnamespace EasyFEAVerif.Gen.C09\n\n"
+                      "/-- the statements by which an element group computes its Jacobians and weighted Jacobians (matched against the source) -/\n"
+                      "def jacobianForms : List (String × List String) := [\n  "
+                      + ",\n  ".join("(" + q(k) + ", [" + ", ".join(q(x) for x in v) + "])" for k, v in jf.items()) + "]\n\nend EasyFEAVerif.Gen.C09\n")
+    d = dict(d)
+    d["jacobianForms"] = list(jf)
     return d
+
+
+
+
+def jacobian_forms(repo):
+    """statement-level: the measure of an element group (Props/C09Curved.lean is written from these statements)"""
+    from .gen_c08 import _need
+    fns = _functions(os.path.join(repo, "EasyFEA", "FEM", "_group_elem.py"), "_GroupElem")
+    jac, wj = fns.get("Get_jacobian_e_pg"), fns.get("Get_weightedJacobian_e_pg")
+    if jac is None or wj is None:
+        raise Refuse("Get_jacobian_e_pg / Get_weightedJacobian_e_pg not found")
+    tests = [ast.unparse(n.test) for n in ast.walk(jac) if isinstance(n, ast.If)]
+    if tests != ["self.dim == 0", "self.dim != self.inDim and self.order > 1", "absoluteValues"]:
+        raise Refuse(f"Get_jacobian_e_pg: branch tests {tests}")
+    return {
+        "Get_jacobian_e_pg": _need(jac, ["F_e_pg = self.Get_F_e_pg(matrixType)", "jacobian_e_pg = FeArray.asfearray(Det(F_e_pg))", "coord_e = self.coord[connect]",
+                                          "tangents_e_pg = np.einsum('pdn,eni->epdi', self.Get_dN_pg(matrixType), coord_e, optimize='optimal')",
+                                          "metric_e_pg = np.linalg.det(tangents_e_pg @ np.swapaxes(tangents_e_pg, -1, -2))", "sign_e_pg = np.where(np.asarray(jacobian_e_pg) < 0, -1.0, 1.0)",
+                                          "jacobian_e_pg = FeArray.asfearray(sign_e_pg * np.sqrt(np.abs(metric_e_pg)))", "jacobian_e_pg = np.abs(jacobian_e_pg)", "return jacobian_e_pg"], "_GroupElem.Get_jacobian_e_pg")
+        + ["if self.dim != self.inDim and self.order > 1", "if absoluteValues"],
+        "Get_weightedJacobian_e_pg": _need(wj, ["jacobian_e_pg = self.Get_jacobian_e_pg(matrixType)", "weight_pg = self.Get_weight_pg(matrixType)", "wJ_e_pg = np.asarray(jacobian_e_pg) * weight_pg",
+                                                  "return FeArray.asfearray(wJ_e_pg)"], "_GroupElem.Get_weightedJacobian_e_pg"),
+    }
 
 
 if __name__ == "__main__":
